@@ -338,11 +338,62 @@ func (sc *SubCache[EntityT, ExcerptT, CacheT]) SetCacheSize(size int) {
 }
 
 func (sc *SubCache[EntityT, ExcerptT, CacheT]) Close() error {
+	err := sc.forgetUncommitted()
+
 	sc.mu.Lock()
 	defer sc.mu.Unlock()
 	sc.excerpts = nil
 	sc.cached = make(map[entity.Id]CacheT)
-	return nil
+	// nothing is loaded any more: another sub-cache that is still closing may resolve its authors here
+	sc.lru = newLRUIdCache()
+	return err
+}
+
+// forgetUncommitted gives the excerpt and the index document of every loaded entity that still has
+// uncommitted changes the content found in the repository. Those changes are lost with the loaded
+// entity, but entityUpdated has already written them in the excerpt file and in the index: the
+// next process would load and serve, for as long as the entity does not change again, a state that
+// the repository never had.
+func (sc *SubCache[EntityT, ExcerptT, CacheT]) forgetUncommitted() error {
+	sc.mu.Lock()
+
+	var firstErr error
+	changed := false
+	for id, cached := range sc.cached {
+		if sc.excerpts == nil || !cached.NeedCommit() {
+			continue
+		}
+		changed = true
+
+		index, err := sc.repo.GetIndex(sc.namespace)
+		if err != nil {
+			sc.mu.Unlock()
+			return err
+		}
+
+		e, err := sc.actions.ReadWithResolver(sc.repo, sc.resolvers(), id)
+		if err != nil {
+			// not in the repository (or not readable any more): the next process can't serve it
+			delete(sc.excerpts, id)
+			err = index.Remove(id.String())
+		} else {
+			committed := sc.makeCached(e, sc.entityUpdated)
+			sc.excerpts[id] = sc.makeExcerpt(committed)
+			err = index.IndexOne(id.String(), sc.makeIndexData(committed))
+		}
+		if err != nil && firstErr == nil {
+			firstErr = err
+		}
+	}
+	sc.mu.Unlock()
+
+	if !changed {
+		return nil
+	}
+	if err := sc.write(); err != nil && firstErr == nil {
+		firstErr = err
+	}
+	return firstErr
 }
 
 // AllIds return all known bug ids
